@@ -750,4 +750,3 @@ func doRecover(caller *frame) value {
 	}
 	return iface{}
 }
-
